@@ -282,6 +282,14 @@ type vfWorldConf struct {
 	// allows that directory), so that the lists can be re-read at run time.
 	LocalListURLs bool
 
+	// TLSCert, if set, makes the server listen for DNS-over-TLS on a loopback
+	// port with this certificate.
+	TLSCert *tls.Certificate
+	// OnApplyClient, if set, sees every call of the per-request client
+	// settings callback (ClientID and address the server attributes the
+	// request to) before the real one runs.
+	OnApplyClient func(id string, addr netip.Addr)
+
 	// ConfigModified, if set, is the callback every module gets for "the
 	// configuration changed, save it".
 	ConfigModified func()
@@ -446,6 +454,14 @@ func vfNewWorld(c *vfWorldConf) (w *vfWorld, err error) {
 		}
 		applyClient = w.storage.ApplyClientFiltering
 		clientsContainer = w.storage
+	}
+
+	if c.OnApplyClient != nil {
+		inner := applyClient
+		applyClient = func(id string, addr netip.Addr, setts *filtering.Settings) {
+			c.OnApplyClient(id, addr)
+			inner(id, addr, setts)
+		}
 	}
 
 	sched := vfEmptyWeek()
@@ -626,6 +642,10 @@ func vfNewWorld(c *vfWorldConf) (w *vfWorld, err error) {
 		HTTPRegister:    c.HTTPRegister,
 		UpstreamTimeout: time.Second,
 		ServePlainDNS:   true,
+	}
+	if c.TLSCert != nil {
+		sconf.TLSConf.Cert = c.TLSCert
+		sconf.TLSConf.TLSListenAddrs = []*net.TCPAddr{{IP: net.IPv4(127, 0, 0, 1)}}
 	}
 	err = w.srv.Prepare(sconf)
 	if err != nil {
